@@ -137,4 +137,27 @@ theorem default_codecs_delegate :
     holds "DefaultRateDecoder::into_parts" 0 (isInnerDeleg "InnerDecoder" "into_parts" 0) = true := by
   decide
 
+def isSelf (g : G) : Bool :=
+  match g with
+  | .self_ => true
+  | _ => false
+
+/-- the public primitives of the three SIMD engines enter their `#[target_feature]` function with all arguments in
+    order, which (after the hook's trace call) runs the safe body / the generic `utils::eval_poly` with all arguments
+    in order; `NoSimd` runs the same safe bodies directly, and the provided `Engine::eval_poly` (used by `Naive` and
+    `NoSimd`) is `utils::eval_poly` -/
+theorem engine_entry_points_delegate :
+    (∀ e ∈ ["ssse3", "avx2", "neon"], ∀ E ∈ [if e = "ssse3" then "Ssse3" else if e = "avx2" then "Avx2" else "Neon"],
+      holds (E ++ "::fft") 5 (isMethodDeleg isSelf ("fft_private_" ++ e) 5) = true ∧
+      holds (E ++ "::ifft") 5 (isMethodDeleg isSelf ("ifft_private_" ++ e) 5) = true ∧
+      holds (E ++ "::mul") 2 (isMethodDeleg isSelf ("mul_" ++ e) 2) = true ∧
+      holds (E ++ "::eval_poly") 2 (isCallDeleg ("Self::eval_poly_" ++ e) 2) = true ∧
+      holds (E ++ "::fft_private_" ++ e) 5 (isMethodDeleg isSelf "fft_private" 5) = true ∧
+      holds (E ++ "::ifft_private_" ++ e) 5 (isMethodDeleg isSelf "ifft_private" 5) = true ∧
+      holds (E ++ "::eval_poly_" ++ e) 2 (isCallDeleg "utils::eval_poly" 2) = true) ∧
+    holds "NoSimd::fft" 5 (isMethodDeleg isSelf "fft_private" 5) = true ∧
+    holds "NoSimd::ifft" 5 (isMethodDeleg isSelf "ifft_private" 5) = true ∧
+    holds "Engine::eval_poly" 2 (isCallDeleg "utils::eval_poly" 2) = true := by
+  decide
+
 end RS.SrcG
